@@ -8,6 +8,7 @@ Planar symmetry and P₀ = 0 only (what the constructor accepts).  Hypotheses: w
 (`NohIC.Admissible 0` and P₀ = 0) and ρ ≠ 0 (the guard of every method).  Inverse and determinant are hand-coded in the class.
 -/
 import EPV.Lemmas.C16ResDefs
+import EPV.Lemmas.Bridge.EosTac
 
 set_option linter.all false
 set_option maxHeartbeats 1000000
@@ -24,86 +25,68 @@ theorem sEnergyS0_jacobian (s : EOS) (ic : NohIC) (ρ x : ℝ) (hic : ic.Admissi
     (hs : s.EnergyDerivsAt ρ x) :
     IsJacobian2 (SEnergyS0.F s ic) (SEnergyS0.J s ic ρ x) ρ x := by
   obtain ⟨hu, hr0, hP0, hm⟩ := hic
-  have k0 : ¬ (0 ≤ ic.u_0) := not_le.mpr hu
-  have k1 : ¬ (ic.rho_0 ≤ 0) := not_le.mpr hr0
-  have k2 : ¬ (ic.P_0 < 0) := not_lt.mpr hP0
-  have k3 := eq_true hP
   set p := SEnergyS0.pres s ic ρ x with hp
   intro i
   fin_cases i <;> (try simp only [Fin.zero_eta, Fin.mk_one, Fin.reduceFinMk])
   · refine ⟨?_, ?_⟩
     · have hc : HasDerivAt (fun r => ResSEnergyAbsS0_res.L4.F0 p r x) (ResSEnergyAbsS0_res.L4.F0_drho p ρ x) ρ := by
-        apply ResSEnergyAbsS0_res.L4.F0_hasDerivAt_rho <;> assumption
+        epv_eos_cert ResSEnergyAbsS0_res.L4.F0_hasDerivAt_rho p ρ x
       have hev : (fun r => SEnergyS0.F s ic r x 0) =ᶠ[nhds ρ] fun r => ResSEnergyAbsS0_res.L4.F0 p r x := by
         filter_upwards [isOpen_ne.mem_nhds hρ] with r hr
-        simp only [SEnergyS0.F, hp, epv_c16, epv_tree, epv_cond, epv_leaf, hr, k0, k1, k2, k3, if_true, if_false, lt_self_iff_false, Matrix.of_apply, Matrix.cons_val, Fin.zero_eta, Fin.mk_one, Fin.reduceFinMk, Fin.isValue]
-        try ring
+        simp only [SEnergyS0.F, hp] <;> epv_eos_res_eq
       refine (hc.congr_of_eventuallyEq hev).congr_deriv ?_
-      simp only [SEnergyS0.J, hp, epv_c16, epv_tree, epv_cond, epv_leaf, epv_deriv, hρ, k0, k1, k2, k3, if_true, if_false, lt_self_iff_false, Matrix.of_apply, Matrix.cons_val, Fin.zero_eta, Fin.mk_one, Fin.reduceFinMk, Fin.isValue]
-      try field_simp
-      try ring
+      simp only [SEnergyS0.J, hp] <;> epv_eos_res_unfold <;> epv_eos_field
     · have hc : HasDerivAt (fun r => ResSEnergyAbsS0_res.L4.F0 p ρ r) (ResSEnergyAbsS0_res.L4.F0_dpres p ρ x) x := by
-        apply ResSEnergyAbsS0_res.L4.F0_hasDerivAt_pres <;> assumption
+        epv_eos_cert ResSEnergyAbsS0_res.L4.F0_hasDerivAt_pres p ρ x
       have hev : (fun r => SEnergyS0.F s ic ρ r 0) =ᶠ[nhds x] fun r => ResSEnergyAbsS0_res.L4.F0 p ρ r := by
         filter_upwards with r
-        have hr := hρ
-        simp only [SEnergyS0.F, hp, epv_c16, epv_tree, epv_cond, epv_leaf, hr, k0, k1, k2, k3, if_true, if_false, lt_self_iff_false, Matrix.of_apply, Matrix.cons_val, Fin.zero_eta, Fin.mk_one, Fin.reduceFinMk, Fin.isValue]
-        try ring
+        simp only [SEnergyS0.F, hp] <;> epv_eos_res_eq
       refine (hc.congr_of_eventuallyEq hev).congr_deriv ?_
-      simp only [SEnergyS0.J, hp, epv_c16, epv_tree, epv_cond, epv_leaf, epv_deriv, hρ, k0, k1, k2, k3, if_true, if_false, lt_self_iff_false, Matrix.of_apply, Matrix.cons_val, Fin.zero_eta, Fin.mk_one, Fin.reduceFinMk, Fin.isValue]
-      try field_simp
-      try ring
+      simp only [SEnergyS0.J, hp] <;> epv_eos_res_unfold <;> epv_eos_field
   · refine ⟨?_, ?_⟩
     · have hc : HasDerivAt (fun r => ResSEnergyAbsS0_res.L4.F1 p r x) (ResSEnergyAbsS0_res.L4.F1_drho p ρ x) ρ := by
-        apply ResSEnergyAbsS0_res.L4.F1_hasDerivAt_rho <;> assumption
+        epv_eos_cert ResSEnergyAbsS0_res.L4.F1_hasDerivAt_rho p ρ x
       have hev : (fun r => SEnergyS0.F s ic r x 1) =ᶠ[nhds ρ] fun r => (s.e r x - s.e ρ x) + ResSEnergyAbsS0_res.L4.F1 p r x := by
         filter_upwards [isOpen_ne.mem_nhds hρ] with r hr
-        simp only [SEnergyS0.F, hp, epv_c16, epv_tree, epv_cond, epv_leaf, hr, k0, k1, k2, k3, if_true, if_false, lt_self_iff_false, Matrix.of_apply, Matrix.cons_val, Fin.zero_eta, Fin.mk_one, Fin.reduceFinMk, Fin.isValue]
-        try ring
+        simp only [SEnergyS0.F, hp] <;> epv_eos_res_eq
       refine (((hs.1.sub_const _).add hc).congr_of_eventuallyEq hev).congr_deriv ?_
-      simp only [SEnergyS0.J, hp, epv_c16, epv_tree, epv_cond, epv_leaf, epv_deriv, hρ, k0, k1, k2, k3, if_true, if_false, lt_self_iff_false, Matrix.of_apply, Matrix.cons_val, Fin.zero_eta, Fin.mk_one, Fin.reduceFinMk, Fin.isValue]
-      try field_simp
-      try ring
+      simp only [SEnergyS0.J, hp] <;> epv_eos_res_unfold <;> epv_eos_field
     · have hc : HasDerivAt (fun r => ResSEnergyAbsS0_res.L4.F1 p ρ r) (ResSEnergyAbsS0_res.L4.F1_dpres p ρ x) x := by
-        apply ResSEnergyAbsS0_res.L4.F1_hasDerivAt_pres <;> assumption
+        epv_eos_cert ResSEnergyAbsS0_res.L4.F1_hasDerivAt_pres p ρ x
       have hev : (fun r => SEnergyS0.F s ic ρ r 1) =ᶠ[nhds x] fun r => (s.e ρ r - s.e ρ x) + ResSEnergyAbsS0_res.L4.F1 p ρ r := by
         filter_upwards with r
-        have hr := hρ
-        simp only [SEnergyS0.F, hp, epv_c16, epv_tree, epv_cond, epv_leaf, hr, k0, k1, k2, k3, if_true, if_false, lt_self_iff_false, Matrix.of_apply, Matrix.cons_val, Fin.zero_eta, Fin.mk_one, Fin.reduceFinMk, Fin.isValue]
-        try ring
+        simp only [SEnergyS0.F, hp] <;> epv_eos_res_eq
       refine (((hs.2.sub_const _).add hc).congr_of_eventuallyEq hev).congr_deriv ?_
-      simp only [SEnergyS0.J, hp, epv_c16, epv_tree, epv_cond, epv_leaf, epv_deriv, hρ, k0, k1, k2, k3, if_true, if_false, lt_self_iff_false, Matrix.of_apply, Matrix.cons_val, Fin.zero_eta, Fin.mk_one, Fin.reduceFinMk, Fin.isValue]
-      try field_simp
-      try ring
+      simp only [SEnergyS0.J, hp] <;> epv_eos_res_unfold <;> epv_eos_field
 
 /-- `determinant` is the determinant of `F_prime` -/
 theorem sEnergyS0_det (s : EOS) (ic : NohIC) (ρ x : ℝ) (hic : ic.Admissible 0) (hP : ic.P_0 = 0) (hρ : ρ ≠ 0) :
     SEnergyS0.detv s ic ρ x = (SEnergyS0.J s ic ρ x).det := by
   obtain ⟨hu, hr0, hP0, hm⟩ := hic
-  have k0 : ¬ (0 ≤ ic.u_0) := not_le.mpr hu
-  have k1 : ¬ (ic.rho_0 ≤ 0) := not_le.mpr hr0
-  have k2 : ¬ (ic.P_0 < 0) := not_lt.mpr hP0
-  have k3 := eq_true hP
   rw [Matrix.det_fin_two]
-  simp only [SEnergyS0.detv, SEnergyS0.J, epv_c16, epv_tree, epv_cond, epv_leaf, hρ, k0, k1, k2, k3, if_true, if_false, lt_self_iff_false, Matrix.of_apply, Matrix.cons_val, Fin.zero_eta, Fin.mk_one, Fin.reduceFinMk, Fin.isValue]
-  ring
+  simp only [SEnergyS0.detv, SEnergyS0.J] <;> epv_eos_res_eq
 
 /-- `F_prime_inv · F_prime = 1` wherever the class does not raise `ZeroDeterminantError` (`determinant ≠ 0`) -/
 theorem sEnergyS0_inverse (s : EOS) (ic : NohIC) (ρ x : ℝ) (hic : ic.Admissible 0) (hP : ic.P_0 = 0) (hρ : ρ ≠ 0)
     (hdet : SEnergyS0.detv s ic ρ x ≠ 0) :
     SEnergyS0.Jinv s ic ρ x * SEnergyS0.J s ic ρ x = 1 := by
   obtain ⟨hu, hr0, hP0, hm⟩ := hic
-  have k0 : ¬ (0 ≤ ic.u_0) := not_le.mpr hu
-  have k1 : ¬ (ic.rho_0 ≤ 0) := not_le.mpr hr0
-  have k2 : ¬ (ic.P_0 < 0) := not_lt.mpr hP0
-  have k3 := eq_true hP
-  generalize hd : SEnergyS0.detv s ic ρ x = d at hdet
-  simp only [SEnergyS0.detv, epv_c16, epv_tree, epv_cond, epv_leaf, hρ, k0, k1, k2, k3, if_true, if_false, lt_self_iff_false] at hd
+  have hdet' := hdet
+  simp only [SEnergyS0.detv, epv_c16, epv_tree] at hdet'
+  revert hdet'
+  epv_eos_ifs
+  intro hdet'
+  simp only [epv_leaf] at hdet'
+  epv_eos_gen_ne hdet'
+  -- the guards of all entries of `F_prime_inv` and `F_prime` are decided once, at matrix level
+  simp only [SEnergyS0.Jinv, SEnergyS0.J, epv_c16]
+  simp only [epv_tree]
+  epv_eos_ifs
   ext i j
   fin_cases i <;> fin_cases j <;>
-    simp only [SEnergyS0.Jinv, SEnergyS0.J, epv_c16, epv_tree, epv_cond, epv_leaf, hρ, hd, hdet, k0, k1, k2, k3, if_true, if_false, lt_self_iff_false,
-      Matrix.mul_apply, Fin.sum_univ_two, Matrix.one_apply, Fin.reduceEq, Matrix.of_apply, Matrix.cons_val, Fin.zero_eta, Fin.mk_one, Fin.reduceFinMk, Fin.isValue] <;>
-    (try field_simp) <;> (try simp only [← hd]) <;> (try field_simp) <;> (try ring)
+    (simp only [Matrix.mul_apply, Fin.sum_univ_two, Matrix.one_apply, Fin.reduceEq, if_true, if_false, Matrix.of_apply, Matrix.cons_val, Fin.zero_eta, Fin.mk_one, Fin.reduceFinMk, Fin.isValue]
+     simp only [epv_leaf]
+     epv_eos_inv_entry)
 
 /-- non-vacuity: the default initial state ρ₀ = 1, u₀ = -1, P₀ = 0 is admissible in every symmetry -/
 example : (⟨1, -1, 0⟩ : NohIC).Admissible 0 ∧ (⟨1, -1, 0⟩ : NohIC).Admissible 1 ∧ (⟨1, -1, 0⟩ : NohIC).Admissible 2 := by
